@@ -499,6 +499,33 @@ pub fn run_c41(_p: &str, tier: Tier, run_seed: u64, _ov: &Value) -> RunOut {
         for huge in ["ffffffffffffffff", "fffffffffffffffe", "7fffffffffffffff", "ffffffffffffffffff", "100000000000000000"] {
             bad.push(("huge-hex-size", format!("{huge}\r\nx\r\n0\r\n\r\n").into_bytes()));
         }
+        // a size line is 1*HEXDIG [;ext]: one edit of an otherwise well-formed framing that
+        // leaves that grammar (what integer parsers commonly tolerate: a sign, a radix
+        // prefix, a digit separator, an inner blank, a non-ASCII digit), on the data chunk
+        // or on the terminating chunk
+        {
+            let mut gr = rng.fork(0x512e);
+            let data: Vec<u8> = (0..1 + gr.usize(40)).map(|_| b'a' + gr.below(26) as u8).collect();
+            let hex = format!("{:x}", data.len());
+            let ext = if gr.coin() { ";a=b" } else { "" };
+            let variants: Vec<(&str, String, String)> = vec![
+                ("plus-signed-size", format!("+{hex}"), "0".into()),
+                ("plus-signed-terminator", hex.clone(), "+0".into()),
+                ("minus-zero-terminator", hex.clone(), "-0".into()),
+                ("radix-prefixed-size", format!("0x{hex}"), "0".into()),
+                ("separator-in-size", format!("0_{hex}"), "0".into()),
+                ("blank-inside-size", format!("0 {hex}"), "0".into()),
+                ("non-ascii-digit-size", "\u{0665}".into(), "0".into()),
+                ("double-signed-size", format!("+-{hex}"), "0".into()),
+            ];
+            for (kind, size, term) in variants {
+                let mut m = Vec::new();
+                m.extend_from_slice(format!("{size}{ext}\r\n").as_bytes());
+                m.extend_from_slice(&data);
+                m.extend_from_slice(format!("\r\n{term}\r\n\r\n").as_bytes());
+                bad.push((kind, m));
+            }
+        }
         for (kind, m) in bad {
             out.bump(&format!("fault.{kind}.armed"));
             match call(&m) {
